@@ -10,7 +10,8 @@ import (
 	"github.com/onosproject/onos-lib-go/pkg/env"
 	"github.com/onosproject/onos-lib-go/pkg/logging"
 	"github.com/onosproject/onos-lib-go/pkg/uri"
-	"strings"
+
+	pathutils "github.com/onosproject/onos-config/pkg/utils/path"
 )
 
 var log = logging.GetLogger("controller", "utils")
@@ -30,7 +31,8 @@ func AddDeleteChildren(index configapi.Index, changeValues map[string]*configapi
 		// if this pathValue has to be deleted, then we need to search for all children of this pathValue
 		if changeValue.Deleted {
 			for _, value := range configStore {
-				if strings.HasPrefix(value.Path, changeValue.Path) && !strings.EqualFold(value.Path, changeValue.Path) {
+				// cascade only to true descendants; paths set by the change itself keep the value of the change
+				if _, inChange := changeValues[value.Path]; !inChange && pathutils.IsDescendantPath(value.Path, changeValue.Path) {
 					updChangeValues[value.Path] = value
 					updChangeValues[value.Path].Index = index
 					updChangeValues[value.Path].Deleted = true
